@@ -43,7 +43,13 @@ Unusual == {
   "export default <div/>;", "export default () => <C>{f()}</C>;", "label: { break label; } export const s = <div/>;",
 
   "export const s = <C>{function* () {}}</C>;", "export const s = <C>{class {}}</C>;", "export const s = <div>{`a${b}`}</div>;",
-  "export const s = <div a='&quot;&amp;' b=\"\\n\">&lt;&#x41;</div>;"
+  "export const s = <div a='&quot;&amp;' b=\"\\n\">&lt;&#x41;</div>;",
+  "export const s = <a href=\"C:\\users\\me\" sep=\"\\\" pattern=\"(a|b)\\1\" q='\\x' />;",
+  "export const s = <C href=\"C:\\users\" {...o} />;", "export const s = <div v-foo=\"C:\\users\" />;",
+  "export const s = <div v-html=\"a\\b\\u\" />;", "export const s = <div v-text=\"\\\" />;", "export const s = <div>C:\\users\\1</div>;",
+  "export const s = <A.b-c />;", "export const s = <A.b-c.d>t</A.b-c.d>;",
+  "export const s = async (id) => <C>{f(id)}</C>;", "export const s = async (id) => <C>{render(await load(id))}</C>;",
+  "export const s = async function (id) { return <C>{f(id)}</C>; };", "export const s = { async m(id) { return () => <C>{f(id)}</C>; } };"
 }
 
 Pragmas == {"/* @jsx h foo */", "/** @jsxImportSource vue */", "/* @jsx */", "// @jsxRuntime automatic", "/* @jsxFrag F */",
@@ -76,6 +82,7 @@ AwaitYield == {"export const s = async () => <C>{await f()}</C>;", "export funct
 (* ---- C08: self- and mutually-referential type declarations, empty runtime types (resolveType) ---- *)
 TsHead == "import { defineComponent, type SetupContext } from 'vue';\n"
 TsForms == {
+  "export const s = <T,>(x: T): any => <C>{f(x)}</C>;", "export const s = async <T,>(x: T): Promise<any> => <C>{f(x)}</C>;",
   "type P = P; export const C = defineComponent((props: P) => () => null);",
   "type P = Q; type Q = P; export const C = defineComponent((props: P) => () => null);",
   "type P = { a: string } & P; export const C = defineComponent((props: P) => () => null);",
